@@ -19,6 +19,10 @@ impl PositionalMapper {
     /// Remember the mapping for this `RIId` to know what to apply for `apply_positional_mapping`.
     pub(crate) fn activate_mapping(&mut self, riid: &RIId) {
         self.active_positional_mapping = self.relation_positional_mapping.remove(riid);
+        #[cfg(feature = "verif")]
+        crate::sql::verif_hooks::trace_event(serde_json::json!({
+            "event": "pm_activate", "riid": riid, "active": self.active_positional_mapping,
+        }));
         log::trace!(
             "loading remapping for {riid:?}: {:?}",
             self.active_positional_mapping
@@ -47,6 +51,8 @@ impl PositionalMapper {
     }
 
     pub fn compute_and_store_mapping(&mut self, before: &[CId], after: &[CId], riid: &RIId) {
+        #[cfg(feature = "verif")]
+        let verif_had = self.relation_positional_mapping.contains_key(riid);
         let mapping: Vec<_> = after
             .iter()
             .flat_map(|a| match before.iter().position(|b| b == a) {
@@ -71,6 +77,11 @@ impl PositionalMapper {
                 after.len()
             );
         }
+        #[cfg(feature = "verif")]
+        crate::sql::verif_hooks::trace_event(serde_json::json!({
+            "event": "pm_store", "riid": riid, "before": before, "after": after, "had": verif_had,
+            "stored": self.relation_positional_mapping.get(riid),
+        }));
     }
 }
 
@@ -128,5 +139,12 @@ pub fn compute_positional_mappings(
         );
     }
 
+    #[cfg(feature = "verif")]
+    crate::sql::verif_hooks::trace_event(serde_json::json!({
+        "event": "pm_constraints",
+        "pipeline": pipeline,
+        "selected": requirements.map(|r| r.iter().filter(|q| q.selected).map(|q| q.col).collect::<Vec<_>>()),
+        "constraints": constraints,
+    }));
     constraints
 }
